@@ -91,6 +91,10 @@ let verdict_key (stage : int) (v : int) : string =
     | _ -> "accepted-unknown-verdict" in
   if stage = 1 && (v = 1 || v = 2 || v = 3) then base ^ "-in-account-proof" else base
 
+(* what the model's stored value hashes to: keccak (table lookup) of the payload after the 4-byte SSZ offset *)
+let stored_hash (node_hash : byte list -> byte list) (s : byte list) : string =
+  match s with _ :: _ :: _ :: _ :: payload -> hexs (node_hash payload) | _ -> "short"
+
 (* ---- one item = the 13 fields of a val line (also one step of a hist line) ---- *)
 type item = {
   tag : string; kind : string; req : request; bh : byte list; oracle : string;
@@ -138,7 +142,7 @@ let header_of (it : item) (x : byte list) : byte list res =
   if it.oracle <> "!" && ub x = ub it.bh then Ok (hexb it.oracle) else Err (Obj.magic (Util.n_of_int 22))
 
 (* monitors: the property's predicates on the IMPLEMENTATION's verdict iv / Put observation ip ("-" = Put did not run) *)
-let item_monitors (node_hash, decode, decode_account) (it : item) (iv : string) (ip : string) (where : string) : string list =
+let item_monitors (node_hash, decode, decode_account) (it : item) (iv : string) (ip : string) (ik : string) (where : string) : string list =
   let mons = ref [] in
   let tag = it.tag ^ where in
   let add k d = mons := (k ^ " " ^ d) :: !mons in
@@ -161,10 +165,7 @@ let item_monitors (node_hash, decode, decode_account) (it : item) (iv : string) 
      | Some e ->
        if starts ip "ok:" then begin
          if ip <> "ok:" ^ hexs e then add "stored-not-final-node" (Printf.sprintf "tag=%s stored=%s" tag (String.sub ip 0 (min 80 (String.length ip))));
-         (* C13_put_rechecks_hash on the implementation: stored code must hash to the key's code hash *)
-         (match req with
-          | RBytecode (_, ch, code, _, _) when not (bytes_eqb (node_hash code) ch) -> add "stored-code-not-hashing-to-key" (Printf.sprintf "tag=%s" tag)
-          | _ -> ())
+         ()
        end else if starts ip "panic" then add "put-panics-after-accept" (tag ^ " " ^ ip)
        else begin
          (* a bytecode item passes ValidateContent on the account's code hash alone; the code bytes are bound to the key by
@@ -175,6 +176,16 @@ let item_monitors (node_hash, decode, decode_account) (it : item) (iv : string) 
        end
      | None -> add "accepted-empty-proof" tag)
   end
+  else ();
+  (* C13_put_rechecks_hash judged on the implementation's STORED value: ik is the keccak (computed by the harness with the
+     real keccak) of the payload Put wrote; it must be the hash in the key - whether or not the validator ran before *)
+  if starts ip "ok:" then begin
+    let key_hash = match req with RAccountNode (_, nh, _, _) -> nh | RStorageNode (_, _, nh, _, _, _) -> nh | RBytecode (_, ch, _, _, _) -> ch in
+    if ik <> hexs key_hash then
+      add (if it.kind = "cbc" then "stored-code-not-hashing-to-key" else "stored-node-not-hashing-to-key")
+        (Printf.sprintf "tag=%s stored-hashes-to=%s key=%s" tag ik (hexs key_hash))
+  end;
+  if iv = "ok" then ()
   else if starts iv "panic" then add (classify_panic "validator" iv) (Printf.sprintf "tag=%s %s" tag iv)
   else if starts iv "err" && verdict = 0 then add "rejected-honest-proof" (Printf.sprintf "tag=%s" tag);
   List.rev !mons
@@ -211,7 +222,7 @@ let handle fields impl : string option * string list =
       | Ok l -> "ok " ^ hexs l | Err e -> Printf.sprintf "err %d" (int_n e) | Panic -> "panic" in
     (Some m, if starts impl "panic" then ["nibbles-deserialize-panics " ^ impl] else [])
   | ["raw"; _; _] ->
-    (Some "v:err p:err",
+    (Some "v:err p:err k:-",
      (if contains impl "v:panic" then ["validator-panics-in-ssz-layer " ^ impl] else [])
      @ (if contains impl "v:ok" then ["accepted-undecodable-content " ^ impl] else []))
   | ["val"; tag; kind; oracle; blockhash; addrhash; path; keyhash; code; codek; acctproof; mainproof; tbl; accts] ->
@@ -219,8 +230,9 @@ let handle fields impl : string option * string list =
     let (node_hash, decode, decode_account) as orc = oracles [it] in
     let header = header_of it in
     (* implementation observation *)
-    let iv, ip = match String.split_on_char ' ' impl with
-      | [v; p] when starts v "v:" && starts p "p:" -> (String.sub v 2 (String.length v - 2), String.sub p 2 (String.length p - 2))
+    let iv, ip, ik = match String.split_on_char ' ' impl with
+      | [v; p; k] when starts v "v:" && starts p "p:" && starts k "k:" ->
+        (String.sub v 2 (String.length v - 2), String.sub p 2 (String.length p - 2), String.sub k 2 (String.length k - 2))
       | _ -> failwith "impl observation" in
     (* model *)
     let mv = match (if use_orig then validate_content_orig node_hash decode decode_account header it.req
@@ -228,7 +240,8 @@ let handle fields impl : string option * string list =
       | Ok () -> "ok" | Err _ -> "err" | Panic -> if starts iv "panic" then iv else "panic" in
     let mp = match put node_hash it.req with
       | Ok s -> "ok:" ^ hexs s | Err _ -> "err" | Panic -> if starts ip "panic" then ip else "panic" in
-    (Some ("v:" ^ mv ^ " p:" ^ mp), item_monitors orc it iv ip "")
+    let mk = match put node_hash it.req with Ok s -> stored_hash node_hash s | _ -> "-" in
+    (Some ("v:" ^ mv ^ " p:" ^ mp ^ " k:" ^ mk), item_monitors orc it iv ip ik "")
   | ["hist"; _n; steps] ->
     (* one validator instance and one storage through a sequence of items; the header source is scripted per step *)
     let items = List.map (fun st -> match String.split_on_char '^' st with
@@ -243,31 +256,32 @@ let handle fields impl : string option * string list =
     let n = List.length items in
     if List.length parts <> n + 1 then failwith "hist observation";
     let iobs = List.filteri (fun i _ -> i < n) parts in
-    let split_obs o = match String.index_opt o ',' with
-      | Some i when starts o "v:" && String.length o > i + 2 && String.sub o (i + 1) 2 = "p:" ->
-        (String.sub o 2 (i - 2), String.sub o (i + 3) (String.length o - i - 3))
+    let split_obs o = match String.split_on_char ',' o with
+      | [v; p; k] when starts v "v:" && starts p "p:" && starts k "k:" ->
+        (String.sub v 2 (String.length v - 2), (String.sub p 2 (String.length p - 2), String.sub k 2 (String.length k - 2)))
       | _ -> failwith "hist step observation" in
     let iobs = List.map split_obs iobs in
-    let mobs = List.map2 (fun (v, p) (iv, ip) ->
+    let mobs = List.map2 (fun (v, p) (iv, (ip, _)) ->
         let mv = match v with Ok () -> "ok" | Err _ -> "err" | Panic -> if starts iv "panic" then iv else "panic" in
         let mp = match p with
           | None -> "-"
           | Some (Ok s) -> "ok:" ^ hexs s | Some (Err _) -> "err" | Some Panic -> if starts ip "panic" then ip else "panic" in
-        "v:" ^ mv ^ ",p:" ^ mp) outs iobs in
+        let mk = match p with Some (Ok s) -> stored_hash node_hash s | _ -> "-" in
+        "v:" ^ mv ^ ",p:" ^ mp ^ ",k:" ^ mk) outs iobs in
     (* final store: every id ever used, sorted, with the model's latest value *)
     let ids = List.sort_uniq compare (List.map (fun (k, _) -> hexs k) store) in
     let mstore = List.map (fun idh -> match store_get store (hexb idh) with Some v -> idh ^ "~" ^ hexs v | None -> idh ^ "~?") ids in
     let mstore = match mstore with [] -> "." | l -> String.concat ";" l in
     let model = String.concat "@" mobs ^ "@S:" ^ mstore in
     (* per-step monitors, against the header answer of THAT step (C13_history_accept_iff) *)
-    let mons = List.concat (List.mapi (fun i ((it, _), (iv, ip)) ->
-        item_monitors orc it iv ip (Printf.sprintf "@step%d/%d" (i + 1) n)) (List.combine items iobs)) in
+    let mons = List.concat (List.mapi (fun i ((it, _), (iv, (ip, ik))) ->
+        item_monitors orc it iv ip ik (Printf.sprintf "@step%d/%d" (i + 1) n)) (List.combine items iobs)) in
     (* C13_history_store on the implementation: everything in the final store is the expected value of an accepted step *)
     let istore = List.nth parts n in
     let istore = String.sub istore 2 (String.length istore - 2) in
     let smons = List.concat_map (fun e -> match String.split_on_char '~' e with
         | [idh; vh] ->
-          let justified = List.exists2 (fun (it, id) (iv, ip) ->
+          let justified = List.exists2 (fun (it, id) (iv, (ip, _)) ->
               hexs id = idh && iv = "ok" && (match expected_stored it.req with Some x -> hexs x = vh | None -> false)
               && snd (content_verdict node_hash decode decode_account (header_of it) it.req) = v_OK) items iobs in
           if justified then [] else ["history-store-holds-unjustified-entry id=" ^ idh]
